@@ -1,0 +1,115 @@
+//go:build verif
+
+package isaacstates
+
+import (
+	"sort"
+	"sync"
+	"unsafe"
+
+	"github.com/spikeekips/mitum/base"
+)
+
+// VerifRecord is a read-only snapshot of one vote record of the ballotbox.
+type VerifRecord struct {
+	Key               string
+	StagePoint        base.StagePoint
+	Voted             []string // node addresses in voted
+	Ballots           []string // node addresses waiting in ballots (suffrage not known at vote time)
+	Ptr               uintptr  // identity of the record (never dereferenced)
+	IsSuffrageConfirm bool
+	Finished          bool
+}
+
+func verifSnapshotVoterecords(key string, vr *voterecords) VerifRecord {
+	vr.RLock()
+	defer vr.RUnlock()
+
+	r := VerifRecord{
+		Key:               key,
+		Ptr:               uintptr(unsafe.Pointer(vr)),
+		StagePoint:        vr.sp,
+		IsSuffrageConfirm: vr.isc,
+		Finished:          vr.vp != nil,
+	}
+
+	for k := range vr.voted {
+		r.Voted = append(r.Voted, k)
+	}
+
+	for k := range vr.ballots {
+		r.Ballots = append(r.Ballots, k)
+	}
+
+	sort.Strings(r.Voted)
+	sort.Strings(r.Ballots)
+
+	return r
+}
+
+// VerifRecords lists every record which is reachable through the record map
+// of the ballotbox; read under the map's and the record's own locks.
+func (box *Ballotbox) VerifRecords() []VerifRecord {
+	var rs []VerifRecord
+
+	box.vrs.Traverse(func(key string, vr *voterecords) bool {
+		rs = append(rs, verifSnapshotVoterecords(key, vr))
+
+		return true
+	})
+
+	sort.Slice(rs, func(i, j int) bool { return rs[i].Key < rs[j].Key })
+
+	return rs
+}
+
+// VerifRemoved lists the records which wait for being returned to the pool
+// by the next cleanup.
+func (box *Ballotbox) VerifRemoved() []VerifRecord {
+	var rs []VerifRecord
+
+	_ = box.removed.Get(func(removed []*voterecords, _ bool) error {
+		for i := range removed {
+			rs = append(rs, verifSnapshotVoterecords("", removed[i]))
+		}
+
+		return nil
+	})
+
+	return rs
+}
+
+var verifPoolPutObserver struct {
+	f func(ptr uintptr, stagepoint base.StagePoint, isSuffrageConfirm bool)
+	sync.RWMutex
+}
+
+// VerifObservePoolPut registers f which is called, before the record is reset
+// and handed to the pool, every time a record is returned to the record pool.
+// nil removes the observer.
+func VerifObservePoolPut(f func(ptr uintptr, stagepoint base.StagePoint, isSuffrageConfirm bool)) {
+	verifPoolPutObserver.Lock()
+	defer verifPoolPutObserver.Unlock()
+
+	verifPoolPutObserver.f = f
+}
+
+func init() {
+	orig := voterecordsPoolPut
+
+	voterecordsPoolPut = func(vr *voterecords) {
+		verifPoolPutObserver.RLock()
+		f := verifPoolPutObserver.f
+		verifPoolPutObserver.RUnlock()
+
+		if f != nil {
+			vr.RLock()
+			sp, isc := vr.sp, vr.isc
+			vr.RUnlock()
+
+			f(uintptr(unsafe.Pointer(vr)), sp, isc)
+		}
+
+		orig(vr)
+	}
+}
